@@ -39,10 +39,21 @@ def sortStr (l : List String) : List String := l.mergeSort (· ≤ ·)
 def sortByIp {α} (l : List (Ip × α)) : List (Ip × α) := l.mergeSort (fun a b => a.1 ≤ b.1)
 def sortByKey {α} (l : List (String × α)) : List (String × α) := l.mergeSort (fun a b => a.1 ≤ b.1)
 
+def mix (h x : UInt64) : UInt64 := (h ^^^ x) * 1099511628211
+
+/-- fold the `limbs` low 64-bit limbs of `n` into the hash -/
+def fpNat (h : UInt64) (n limbs : Nat) : UInt64 :=
+  (List.range limbs).foldl (fun h j => mix h (n >>> (64 * j)).toUInt64) h
+
+def fpPairs (l : List (Ip × Bitmap)) : UInt64 :=
+  (sortByIp l).foldl (fun h p => fpNat (fpNat h p.1 2) p.2 16) 14695981039346656037
+
+def fpIps (l : List Ip) : UInt64 := (sortNat l).foldl (fun h ip => fpNat h ip 2) 14695981039346656037
+
+/-- one `syncOwner` call: sizes and fingerprints of its two batches (bookkeeping part of a line). -/
 def emitStr (p : Owner × Emit) : String :=
-  let ups := (sortByIp p.2.ups).map fun q => ipStr q.1 ++ "=" ++ bitsStr q.2
-  let dels := (sortNat p.2.dels).map ipStr
-  "call(" ++ tokOfOwner p.1 ++ "|u:" ++ ",".intercalate ups ++ "|d:" ++ ",".intercalate dels ++ ")"
+  "call(" ++ tokOfOwner p.1 ++ "|u:" ++ toString p.2.ups.length ++ ":" ++ toString (fpPairs p.2.ups) ++
+    "|d:" ++ toString p.2.dels.length ++ ":" ++ toString (fpIps p.2.dels) ++ ")"
 
 def callsStr (log : List (Owner × Emit)) : String :=
   if log.isEmpty then "calls=none" else "calls=" ++ "".intercalate (log.map emitStr)
@@ -69,11 +80,8 @@ def trackerStr (t : Tracker) : String :=
 def kernelStr (K : Kernel) : String :=
   "kernel{" ++ " ".intercalate ((sortByIp K).map fun p => ipStr p.1 ++ "=" ++ bitsStr p.2) ++ "}"
 
-/-- FNV-1a (64 bit) of the table string: the per-line fingerprint of the whole table. -/
-def digest (s : String) : String :=
-  toString (s.foldl (fun (h : UInt64) c => (h ^^^ c.toNat.toUInt64) * 1099511628211) 14695981039346656037)
-
-def tableFp (K : Kernel) : String := "k=" ++ toString K.length ++ " t=" ++ digest (kernelStr K)
+/-- fingerprint of the whole table (FNV-1a style over the sorted entries), compared on every line. -/
+def tableFp (K : Kernel) : String := "k=" ++ toString K.length ++ " t=" ++ toString (fpPairs K)
 
 /-- property-relevant part of a cache entry (key, bitmap, listed addresses). -/
 def cacheStr (c : List (String × Entry)) : String :=
